@@ -61,6 +61,9 @@ func runC07(env *Env, rc *RunCtx) {
 		sizes = []int{0, 1, 2, 3, 5, 7, 20, 99, 100, 101, 105}
 	}
 	n := sizes[t.Choose(len(sizes))]
+	if t.Bool(1, 10) {
+		n = []int{150, 205, 310}[t.Choose(3)] // a few hundred rows also in the quick tier
+	}
 	bigRun := t.Bool(1, 12)
 	hugeRun := false
 	if bigRun {
@@ -168,9 +171,27 @@ func runC07(env *Env, rc *RunCtx) {
 		}
 		return w
 	}
+	// one listing in six changes its page size from page to page (the size is a
+	// parameter of each request, not of the listing)
+	varySize := !bigRun && t.Bool(1, 6)
+	if varySize {
+		rc.Count("probe_page_size_changes_within_listing", 1)
+		if n > 101 && t.Bool(1, 2) {
+			// start above the default size, continue at or below it
+			size = []int{101, 120, 150}[t.Choose(3)]
+			eff = size
+		}
+	}
 	for {
 		var r Resp
 		var p *Page
+		if varySize && pages > 0 {
+			size = []int{0, 1, 2, 3, 7, 50, 99, 100, 101, 150}[t.Choose(10)]
+			eff = size
+			if eff == 0 {
+				eff = 100
+			}
+		}
 		if grpcT {
 			r, p = sys.ListGRPC(q, size, tok)
 		} else {
@@ -262,7 +283,7 @@ func runC07(env *Env, rc *RunCtx) {
 	if wantPages == 0 {
 		wantPages = 1
 	}
-	if !matchingWrite && pages != wantPages {
+	if !matchingWrite && !varySize && pages != wantPages {
 		rc.Violate("page-count", "list", fmt.Sprintf("%d matching rows with page size %d came in %d pages, expected %d (a token must be empty exactly on the last page)", n, eff, pages, wantPages), witness(nil), -1, nil)
 		return
 	}
